@@ -311,7 +311,9 @@ static void run_case (void) {
       A1 = AL[x->l1 - 1];
       if (x->l2) A2 = AL[x->l2 - 1];
       want = A1 - A2 + x->edisp;
-      if (got != want)
+      if (got == (int64_t) 0xA5A5A5A5A5A5A5A5ull) /* still the allocator's fill pattern: nothing ever wrote the item */
+        FAIL (i, "lref_not_filled", "lref item %d (L%d, L%d, disp %d) was never filled after its function had been prepared [%s]", i, x->l1, x->l2, x->disp, seq);
+      else if (got != want)
         FAIL (i, x->l2 ? "lref_diff" : "lref_addr", "lref item %d (L%d, L%d, disp %d) holds %ld, but A(L%d)%s%+d = %ld with A(L%d) = %ld [%s]", i, x->l1,
               x->l2, x->disp, (long) got, x->l1, x->l2 ? " - A(l2)" : "", x->disp, (long) want, x->l1, (long) A1, seq);
       break;
